@@ -31,6 +31,7 @@ THEOREMS = [
     "OllamaVerif.C11.at_limit_evicts",
     "OllamaVerif.C11.F12a_two_live_runners_one_model",
     "OllamaVerif.Tie.C01.tree_variant_good",
+    "OllamaVerif.Tie.C01.wait_unload_is_pure",
     "OllamaVerif.Tie.C01.expired_region_is_atomic",
     "OllamaVerif.Tie.C01.tree_one_runner_per_model",
     "OllamaVerif.Tie.C01.tree_live_count_le_max",
